@@ -33,7 +33,8 @@ type Row struct {
 }
 
 // Slot is one output position; Alts lists every admissible row (more than one only for selector
-// ties, which the documentation does not resolve).
+// ties that no rule resolves: FIRST()/LAST() over points with equal timestamps, MIN()/MAX() over
+// tied points that also share the earliest timestamp).
 type Slot struct {
 	Alts []Row
 }
@@ -56,6 +57,15 @@ type Result struct {
 	// while another call has one (only possible under fill(none)).
 	AbsentCalls int
 	Misaligned  int
+
+	// Statistics about MIN()/MAX() ties (for generator-distribution reports): MinMaxTies counts
+	// the buckets in which more than one point attains the extremum; MinMaxTiesDecided those of
+	// them in which the tied points would give different output rows (time, tag columns), so that
+	// the rule "the earliest tied point is selected" decides what is returned;
+	// MinMaxTiesAcrossSeries those decided ties whose tied points belong to different stored series.
+	MinMaxTies             int
+	MinMaxTiesDecided      int
+	MinMaxTiesAcrossSeries int
 }
 
 type tri int
@@ -400,7 +410,7 @@ func Eval(d *Data, q *Query) (*Result, error) {
 				return nil, err
 			}
 		} else {
-			slots, err = callSlots(q, call, g, lo, hi, hasLo, false)
+			slots, err = callSlots(res, q, call, g, lo, hi, hasLo, false)
 			if err != nil {
 				return nil, err
 			}
@@ -485,11 +495,14 @@ func cmpValues(a, b Value) int {
 	panic("refql: not ordered")
 }
 
+// CompareValues orders two numeric values of the same kind (-1, 0, 1).
+func CompareValues(a, b Value) int { return cmpValues(a, b) }
+
 // bucketValue computes the call over the points of one bucket (all have the field). For an
 // aggregate it returns one row; for a selector every admissible (point) choice.
 // rowT < 0 is never used: fixedT says whether the output time is rowT (bucket start / range
 // start) or the time of the selected point.
-func bucketValue(q *Query, call int, pts []*Point, fixedT bool, rowT int64) ([]Row, error) {
+func bucketValue(res *Result, q *Query, call int, pts []*Point, fixedT bool, rowT int64) ([]Row, error) {
 	fn, field := q.Proj[call].Func, q.Proj[call].Name
 	kind := pts[0].Fields[field].K
 	for _, p := range pts {
@@ -563,21 +576,56 @@ func bucketValue(q *Query, call int, pts []*Point, fixedT bool, rowT int64) ([]R
 				best = append(best, p)
 			}
 		}
-		var rows []Row
-		seen := map[string]bool{}
-		for _, p := range best {
-			t := p.T
-			if fixedT {
-				t = rowT
+		rowsOf := func(sel []*Point) []Row {
+			var rows []Row
+			seen := map[string]bool{}
+			for _, p := range sel {
+				t := p.T
+				if fixedT {
+					t = rowT
+				}
+				r := Row{T: t, Cells: projCells(q, p, call, Cell{V: p.Fields[field]})}
+				k := rowKey(r)
+				if !seen[k] {
+					seen[k] = true
+					rows = append(rows, r)
+				}
 			}
-			r := Row{T: t, Cells: projCells(q, p, call, Cell{V: p.Fields[field]})}
-			k := rowKey(r)
-			if !seen[k] {
-				seen[k] = true
-				rows = append(rows, r)
-			}
+			return rows
 		}
-		return rows, nil
+		if (fn == "min" || fn == "max") && len(best) > 1 {
+			// MIN()/MAX() ties: the point with the earliest timestamp among those that attain the
+			// extremum is the selected one (the rule the documentation states for TOP()/BOTTOM(), of
+			// which MAX()/MIN() are the N=1 case, and the one the product's reducers spell out); the
+			// result must not depend on the order in which shards, series or blocks are read. Tied
+			// points of different series with the same earliest timestamp stay interchangeable.
+			earliest := best[0].T
+			for _, p := range best {
+				if p.T < earliest {
+					earliest = p.T
+				}
+			}
+			var sel []*Point
+			for _, p := range best {
+				if p.T == earliest {
+					sel = append(sel, p)
+				}
+			}
+			if res != nil {
+				res.MinMaxTies++
+				if len(rowsOf(best)) > len(rowsOf(sel)) {
+					res.MinMaxTiesDecided++
+					for _, p := range best[1:] {
+						if fmt.Sprint(p.Tags) != fmt.Sprint(best[0].Tags) {
+							res.MinMaxTiesAcrossSeries++
+							break
+						}
+					}
+				}
+			}
+			best = sel
+		}
+		return rowsOf(best), nil
 	}
 	return nil, fmt.Errorf("refql: unknown function %q", fn)
 }
@@ -609,7 +657,7 @@ func OutputKind(fn string, k Kind) Kind {
 
 // callSlots computes the rows of one call over one group. fixedT: the call is not the only one of
 // the statement, so that even a selector does not return the timestamp of the selected point.
-func callSlots(q *Query, call int, g *group, lo, hi int64, hasLo bool, fixedT bool) ([]Slot, error) {
+func callSlots(res *Result, q *Query, call int, g *group, lo, hi int64, hasLo bool, fixedT bool) ([]Slot, error) {
 	fn := q.Proj[call].Func
 	if q.Interval == 0 {
 		// One row per series. An aggregate has no timestamp of its own: the row carries the lower
@@ -619,7 +667,7 @@ func callSlots(q *Query, call int, g *group, lo, hi int64, hasLo bool, fixedT bo
 		if hasLo {
 			t = lo
 		}
-		rows, err := bucketValue(q, call, g.pts, fixedT || !isSelector(fn), t)
+		rows, err := bucketValue(res, q, call, g.pts, fixedT || !isSelector(fn), t)
 		if err != nil {
 			return nil, err
 		}
@@ -647,7 +695,7 @@ func callSlots(q *Query, call int, g *group, lo, hi int64, hasLo bool, fixedT bo
 	for b := range buckets {
 		t := (first+int64(b))*iv + off
 		if len(buckets[b]) > 0 {
-			rows, err := bucketValue(q, call, buckets[b], true, t)
+			rows, err := bucketValue(res, q, call, buckets[b], true, t)
 			if err != nil {
 				return nil, err
 			}
@@ -833,7 +881,7 @@ func multiCallSlots(res *Result, calls []int, kinds map[string]Kind, g *group, l
 			res.AbsentCalls++
 			continue
 		}
-		sl, err := callSlots(&qi, 0, gi, lo, hi, hasLo, true)
+		sl, err := callSlots(res, &qi, 0, gi, lo, hi, hasLo, true)
 		if err != nil {
 			return nil, err
 		}
